@@ -22,6 +22,9 @@ thread_local! {
     /// 0 = the real CPU affinity mask; otherwise `sched_getaffinity` inside `generate` reports
     /// this many CPUs (what `std::thread::available_parallelism` is computed from)
     static TL_SIM_CPUS: Cell<u32> = const { Cell::new(0) };
+    /// simulated state of the process's stdout/stderr inside a call: 0 = writes succeed (and go
+    /// nowhere), otherwise the errno every write to fd 1 or 2 fails with
+    static TL_STDIO_ERRNO: Cell<i32> = const { Cell::new(0) };
 }
 
 static GETRANDOM_CALLS: AtomicU64 = AtomicU64::new(0);
@@ -176,6 +179,58 @@ pub unsafe extern "C" fn sched_getaffinity(pid: i32, cpusetsize: usize, mask: *m
         *mask.add(i) = 0;
     }
     0
+}
+
+static STDIO_WRITES_IN_GENERATE: AtomicU64 = AtomicU64::new(0);
+static STDIO_WRITE_FAULTS_FIRED: AtomicU64 = AtomicU64::new(0);
+
+extern "C" {
+    fn __errno_location() -> *mut i32;
+}
+
+unsafe fn sim_stdio_write(fd: i32, len: isize) -> Option<isize> {
+    if (fd == 1 || fd == 2) && TL_IN_GENERATE.try_with(|f| f.get()).unwrap_or(false) {
+        STDIO_WRITES_IN_GENERATE.fetch_add(1, Ordering::SeqCst);
+        let e = TL_STDIO_ERRNO.try_with(|c| c.get()).unwrap_or(0);
+        if e != 0 {
+            STDIO_WRITE_FAULTS_FIRED.fetch_add(1, Ordering::SeqCst);
+            *__errno_location() = e;
+            return Some(-1);
+        }
+        // the simulated stdout/stderr of a call is a sink
+        return Some(len);
+    }
+    None
+}
+
+/// std's stdout/stderr (print!, eprintln!, dbg!, the panic hook) end in these two symbols. Inside a
+/// simulated call a write to fd 1 or 2 either succeeds into a sink or fails with the errno the
+/// script chose (a full disk behind a redirected stderr, a closed pipe, a hung-up terminal);
+/// everything else is passed through. The pinned tree never writes during `generate`.
+#[no_mangle]
+pub unsafe extern "C" fn write(fd: i32, buf: *const u8, count: usize) -> isize {
+    if let Some(r) = sim_stdio_write(fd, count as isize) {
+        return r;
+    }
+    syscall(1, fd as i64, buf, count) as isize
+}
+
+#[repr(C)]
+pub struct SimIovec {
+    base: *const u8,
+    len: usize,
+}
+
+#[no_mangle]
+pub unsafe extern "C" fn writev(fd: i32, iov: *const SimIovec, iovcnt: i32) -> isize {
+    let mut total = 0isize;
+    for i in 0..iovcnt.max(0) as usize {
+        total += (*iov.add(i)).len as isize;
+    }
+    if let Some(r) = sim_stdio_write(fd, total) {
+        return r;
+    }
+    syscall(20, fd as i64, iov, iovcnt as i64) as isize
 }
 
 static THREADS_SPAWNED_IN_GENERATE: AtomicU64 = AtomicU64::new(0);
